@@ -135,7 +135,7 @@ def rcptCall (s : S) (id : Nat) (rcpt : Bytes) (opts : RcptOpts) : S × Bool :=
   match r with
   | .ok =>
     let s := { s with c := { s.c with recipients := s.c.recipients ++ [rcpt] } }
-    (replyB s 250 ⟨2, 0, 0⟩ ["I'll make sure <".b ++ rcpt ++ "> gets this".b], false)
+    (replyB s 250 ⟨2, 0, 0⟩ ["I'll make sure <".b ++ printable rcpt ++ "> gets this".b], false)
   | .panic => (s, true)
   | e => (write s (Reply.renderError 451 ⟨4, 0, 0⟩ e), false)
 
@@ -208,7 +208,7 @@ theorem mailCall_event (s : S) (id : Nat) (frm : Bytes) (opts : MailOpts) :
   · refine ⟨[], ?_⟩
     cases hr : (popMail s).1 <;> simp [hr, replyB, write, emit, hcl, popMail_evs, popMail_closed]
   · cases hr : (popMail s).1 with
-    | ok => exact ⟨[Ev.w (Reply.render 250 ⟨2, 0, 0⟩ ["Roger, accepting mail from <".b ++ frm ++ ">".b])], by
+    | ok => exact ⟨[Ev.w (Reply.render 250 ⟨2, 0, 0⟩ ["Roger, accepting mail from <".b ++ printable frm ++ ">".b])], by
         simp [hr, replyB, write, emit, hcl, popMail_evs, popMail_closed]⟩
     | panic => exact ⟨[], by simp [hr, emit, popMail_evs]⟩
     | se c e m => exact ⟨[Ev.w (Reply.renderError 451 ⟨4, 0, 0⟩ (.se c e m))], by
